@@ -7,4 +7,6 @@ mod stubs;
 mod header;
 #[cfg(kani)]
 mod hexaddr;
+#[cfg(kani)]
+mod tok;
 // distance_glue.rs (C11 ii) is kept for reference but not compiled: 3 digits did not finish in 15 min
